@@ -1,7 +1,7 @@
 """util.py: the low-S comparison of the three canonical encoders -> Generated/UtilCanon.lean"""
 import ast, os
 from lib import common
-from .py2lean import Group, find_func
+from .py2lean import Group, find_func, Unsupported
 
 
 def generate():
@@ -9,7 +9,15 @@ def generate():
     g = Group("Gen.Util", prefix="")
     for plain in ("strings", "string", "der"):
         name = "sigencode_%s_canonize" % plain
-        g.add(find_func(tree, name), ret="α")
+        fn = find_func(tree, name)
+        # the callee is a parameter of the generated definition, so WHICH plain encoder is called must be pinned here:
+        # sigencode_X_canonize may call sigencode_X and nothing else (a call to another encoder would otherwise only
+        # rename a binder and leave every theorem of C13 true)
+        callees = {c.func.id if isinstance(c.func, ast.Name) else ast.unparse(c.func)
+                   for c in ast.walk(fn) if isinstance(c, ast.Call)}
+        if callees != {"sigencode_" + plain}:
+            raise Unsupported("%s must call exactly sigencode_%s, calls %s" % (name, plain, sorted(callees)))
+        g.add(fn, ret="α")
         g.binders[name] = " {α : Type}"
         g.ext_types["sigencode_" + plain] = "Int → Int → Int → α"
     return {"UtilCanon.lean": g.emit("source: src/ecdsa/util.py (sigencode_*_canonize)")}
